@@ -129,7 +129,13 @@ class ExprMixin:
     def eval_Name(self, e, state):
         key = self.lookup_key(e.id, state)
         if key is not None:
-            return state.vars[key]
+            v = state.vars[key]
+            if self.number_locals and isinstance(v, Num) and v.sym is None and v.const is None:
+                # value numbering on first read of a joined (sym-less) local
+                fr0 = self.frames.get(key[0])
+                v = replace(v, sym=("opq", fr0.label if fr0 else "?", e.id, tuple(l.token for l in self.loops)))
+                state.vars[key] = v
+            return v
         fr = self.stack[-1]
         return self.global_name(fr.module, e.id, e, state)
 
@@ -651,7 +657,7 @@ class ExprMixin:
         if c is None:
             return
         self.event("write", node, origin=c.origin, field=attr, loc=obj.loc, wkind=kind, ptr=obj, val=val,
-                   cls=c.obj.cls if isinstance(c.obj, InstObj) else None)
+                   cls=c.obj.cls if isinstance(c.obj, InstObj) else None, rels=dict(state.rels) if state.rels else None)
         if c.origin.startswith("input") or c.origin.startswith("global"):
             state.effects = state.effects | {(c.origin, attr)}
 
